@@ -77,6 +77,8 @@ def parse_units(path):
     with open(path) as f:
         lines = f.read().split("\n")
     for ln, line in enumerate(lines, 1):
+        if line.startswith("# ") or line == "#":
+            continue                # unit-file comment (never valid Rust/Verus at column 0), also inside sections
         if sec is None or line.startswith("[") or line.startswith("unit:"):
             m = re.match(r"^unit:\s*(\S+)\s*$", line)
             if m:
